@@ -1244,34 +1244,39 @@ ASSUMPTIONS = ['exact arithmetic: the model iterates are the unrounded ones; imp
                'operators/proximals/gradients/projections are deterministic functions of their argument (no hidden '
                'state); step sizes are the same in both calls of a split run (default omega/tau/sigma are NOT: '
                'recorded finding)',
-               'translator configuration: callback given, constant step sizes (gamma_primal = gamma_dual = None), '
-               'fixed order (random=False), scalar inner step sizes in the regenerated adupdates programs (the '
-               'hand model and its theorem also cover array-valued ones)',
-               'random-order variants (kaczmarz/adupdates random=True), accelerated pdhg, steepest descent with a '
-               'line-search object, accelerated_proximal_gradient are outside the resumption claim and not modelled']
+               'translator configuration: callback given; random=False; scalar inner step sizes in the regenerated '
+               'adupdates programs (the hand model and its theorem also cover array-valued ones); the line search of '
+               'steepest_descent is a ConstantLineSearch; scalar recursions (accelerated pdhg: tau, sigma, theta; '
+               'FISTA: t, alpha) are parameters of the interpretation, only their position relative to the vector '
+               'statements is regenerated',
+               'random-order variants (kaczmarz/adupdates random=True) and line-search objects are not modelled '
+               '(probes check their callback counts)']
 TRUSTED = ['translate/solvers.py (Python ast -> C11/Syntax.v programs, fail closed; preambles of the list solvers '
            'pinned by hash)',
-           'C11/Interp.v: semantics of names bound to mutable vector objects (Bind/Alias/Write), canonicalisation',
-           'C11/Model.v sweeps over lists of operators (ad_sweep_opt, kz_sweep, em_sweep) and steepest descent: hand '
-           'transcription tied to the source by the correspondence on every run',
+           'C11/Interp.v: semantics of names bound to mutable vector objects (Bind/Alias/Write/return marker), '
+           'canonicalisation',
+           'C11/Model.v sweeps over lists of operators (ad_sweep_opt, kz_sweep, em_sweep) and the Douglas-Rachford '
+           'model: hand transcription tied to the source by the correspondence on every run',
            'C11/Corr.v functional family (prox / conjugate prox / gradient formulas), itself checked against the '
            'library by the fk case set']
 LEVEL_TEXT = ('Proof: the preamble and loop body of admm_linearized, admm_linearized_simple, doubleprox_dc, '
-              'doubleprox_dc_simple, pdhg, landweber, proximal_gradient and the per-operator inner loops of '
+              'doubleprox_dc_simple, dca, prox_dca, pdhg (constant and accelerated steps), landweber, '
+              'proximal_gradient, accelerated_proximal_gradient, steepest_descent and the per-operator inner loops of '
               'adupdates, adupdates_simple, kaczmarz, osmlem are REGENERATED from the source on every run as programs '
               'over names bound to mutable vector objects; Coq proves by symbolic execution that they compute the '
               'loop-body models for every interpretation of the operators, and then, for EVERY iteration count, start '
               'point, number of operators and temporary-sharing pattern: optimised and reference implementations '
               'produce the same callback-observed iterates and the same caller-visible results (ADMM invariant '
               'tmp_ran = L x); n then m iterations equal n+m iterations for landweber, kaczmarz (fixed order), '
-              'mlem/osmlem, steepest descent with constant step (early return included), doubleprox_dc, '
-              'proximal_gradient with constant or caller-shifted lam, and pdhg through the caller\'s x, x_relax, y '
-              'objects; the callback log has one entry per (sub-)iteration and its k-th entry is the k-th iterate. '
-              'Refuted (recorded findings): resumption of proximal_gradient with a callable lam; resumption with '
-              'default step sizes (operator-norm estimate never cached).  An in-Coq correspondence on iterates and '
-              'on all splittings ties the hand-written parts to the code.')
+              'mlem/osmlem, steepest descent with constant step (early return included), dca, prox_dca, '
+              'doubleprox_dc, proximal_gradient with constant or caller-shifted lam, and pdhg through the caller\'s '
+              'x, x_relax, y objects; the callback log has one entry per (sub-)iteration and its k-th entry is the '
+              'k-th iterate (Douglas-Rachford: the k-th callback is what a run with niter=k+1 returns).  Refuted '
+              '(recorded findings): resumption of proximal_gradient with a callable lam; resumption with default '
+              'step sizes (operator-norm estimate never cached).  An in-Coq correspondence on iterates and on all '
+              'splittings ties the hand-written parts to the code.')
 LEVEL_NOTE = ('Trusted: the translator (fail-closed, small grammar), the interpreter semantics (value-level in-place '
-              'calls: C01/C03/C10), the hand-written sweeps over operator lists (validated by the correspondence), '
-              'exact arithmetic.  Axioms: classical reals + funext as printed.')
+              'calls: C01/C03/C10), the hand-written sweeps over operator lists and the Douglas-Rachford model '
+              '(validated by the correspondence), exact arithmetic.  Axioms: classical reals + funext as printed.')
 TECHNIQUE = ('source-regenerated heap-level programs + symbolic execution in Coq, induction on niter with loop '
              'invariants (simulation), in-Coq differential correspondence on iterates and all splittings')
